@@ -19,11 +19,11 @@ use serde_json::json;
 pub const SPEC15: PropSpec = PropSpec {
 	id: "C15",
 	level: "fault_enumeration",
-	rule: "case = history of up to 40 writer calls over {serialize ok, serialize failing inside the value at a random depth (after bytes were emitted), serialize_all with a failing element in the middle, push_serialized, finish_block, inner()/inner_mut() inspection} ending with into_inner or drop, x approx_block_size in {0,1,small,default,large} x 6 codecs; the sink is a shared buffer (in half of the histories one that accepts only 1..40 bytes per write call, with or without its own write_vectored) inspected after EVERY call (= every point at which the process could stop): it must parse as a complete container file under the reference parser and decode to a prefix (in order) of the successfully serialized values; after finish_block / into_inner / drop to exactly all of them; failed values contribute nothing; conservation invariant through hook H4: ok_values == values_in_sink + n_elements_in_block. distinct by hash(schema shape, history kinds, final file)",
+	rule: "case = history of up to 40 writer calls over {serialize ok, serialize failing inside the value at a random depth (after bytes were emitted), serialize_all with a failing element in the middle, push_serialized, finish_block, inner()/inner_mut() inspection} ending with into_inner or drop, x approx_block_size in {0,1,small,default,large} x 6 codecs; the sink is a shared buffer (in half of the histories one that accepts only 1..40 bytes per write call, with or without its own write_vectored) inspected after EVERY call (= every point at which the process could stop): it must parse as a complete container file under the reference parser and decode to a prefix (in order) of the successfully serialized values; after finish_block / into_inner / drop to exactly all of them; failed values contribute nothing; conservation invariant through hook H4: ok_values == values_in_sink + n_elements_in_block. One fifth of the cases instead run serialize / finish_block histories on a sink that refuses 1-3 write calls outright (hard error, nothing accepted; each flush is one call there) and works again afterwards: the sink must stay a valid file and, once a later call has flushed successfully, hold every value whose call returned Ok exactly once and in order (a value whose own call returned the sink's error may be kept or not). distinct by hash(schema shape, history kinds, final file)",
 	assumptions: &["the sync marker is fixed; which block boundaries the writer chooses is free"],
 	cases: (50_000_000, 4_000_000_000),
 	secs: (30, 900),
-	required: &["quiescent_points_checked", "histories_on_short_writing_sink", "failed_values_in_history", "failure_as_first_value_of_block", "histories_ended_by_drop", "histories_ended_by_into_inner", "conservation_checked"],
+	required: &["quiescent_points_checked", "histories_with_sink_refusals", "refusal_quiescent_points_checked", "histories_on_short_writing_sink", "failed_values_in_history", "failure_as_first_value_of_block", "histories_ended_by_drop", "histories_ended_by_into_inner", "conservation_checked"],
 	run_case: run_case15,
 	once: None,
 	panics_are_violations: true,
@@ -121,6 +121,146 @@ fn check_sink(
 	true
 }
 
+
+/// Does the decoded content fit the sequence of (value, optional) in order - as a prefix, or completely?
+fn fits(dec: &[Val], seq: &[(Val, bool)], need_all: bool) -> bool {
+	let close = |cur: &mut Vec<bool>| {
+		for j in 0..seq.len() {
+			if cur[j] && seq[j].1 {
+				cur[j + 1] = true;
+			}
+		}
+	};
+	let mut cur = vec![false; seq.len() + 1];
+	cur[0] = true;
+	close(&mut cur);
+	for d in dec {
+		let mut next = vec![false; seq.len() + 1];
+		for j in 0..seq.len() {
+			if cur[j] && seq[j].0 == *d {
+				next[j + 1] = true;
+			}
+		}
+		cur = next;
+		close(&mut cur);
+	}
+	if need_all {
+		cur[seq.len()]
+	} else {
+		cur.iter().any(|&x| x)
+	}
+}
+
+/// Histories on a sink that refuses some write calls outright (hard error, nothing accepted) and works again
+/// afterwards. Every flush is one write call on this sink, so a refusal leaves the sink at a block boundary: the file
+/// must stay valid, and once a later call has succeeded in flushing, every value whose call returned Ok must be there
+/// exactly once, in order. A value whose own call returned the sink's error may or may not be kept (the property does
+/// not say), but nothing else may be lost, duplicated or reordered.
+fn refusal_case(ctx: &mut Ctx, case_seed: u64, rng: &mut Rng, rs: &RSchema, schema: &serde_avro_fast::Schema) {
+	let mut wc = pick_write_cfg(rng);
+	wc.approx_block_size = *rng.pick(&[Some(0), Some(1), Some(20), Some(60), Some(200), None]);
+	let nops = 2 + rng.below(30);
+	// the header is call 0; refuse 1-3 of the later calls
+	// (never two calls in a row: in debug builds a writer whose final flush fails again while it is dropped panics on purpose)
+	let mut refuse_at: Vec<u64> = Vec::new();
+	for _ in 0..1 + rng.below(3) {
+		let c = 1 + rng.below(nops) as u64;
+		if refuse_at.iter().all(|&x: &u64| x.abs_diff(c) >= 2) {
+			refuse_at.push(c);
+		}
+	}
+	let sink = SharedSink::refusing(refuse_at.clone());
+	let refusals = sink.refusals.clone();
+	let mut scfg = SerializerConfig::new(schema);
+	let pres = Pres::canonical();
+	let mut w = match build_writer(&mut scfg, &wc, sink.clone()) {
+		Ok(w) => w,
+		Err(_) => return,
+	};
+	let mut seq: Vec<(Val, bool)> = Vec::new();
+	let mut hist: Vec<String> = Vec::new();
+	let wcd = format!("codec={} level={:?} approx_block_size={:?} refuse_at_calls={refuse_at:?}", wc.codec.name(), wc.level, wc.approx_block_size);
+	let check = |ctx: &mut Ctx, seq: &[(Val, bool)], hist: &[String], need_all: bool, when: &str| -> bool {
+		let bytes = sink.buf.borrow().clone();
+		ctx.count("refusal_quiescent_points_checked");
+		let got = container::parse(&bytes).map_err(|e| e.0).and_then(|o| container::decode_values(&o, rs));
+		let verdict = match &got {
+			Err(m) => Some(format!("sink-is-not-a-valid-file {}", err_sig(m))),
+			Ok(g) if !fits(g, seq, false) => Some("sink-values-are-not-a-prefix-of-serialized-values".to_owned()),
+			Ok(g) if need_all && !fits(g, seq, true) => Some("values-missing-or-duplicated".to_owned()),
+			_ => None,
+		};
+		if let Some(v) = verdict {
+			ctx.violation(
+				format!("after-sink-refusal: {v} after={}", when.split(' ').next().unwrap_or("")),
+				case_seed,
+				json!({"schema": rs.spell(None).compact(), "writer": wcd, "history": hist, "after_call": when, "in_sink": got.as_ref().map(|g| g.len()).map_err(|e| e.clone()),
+					"values_whose_call_returned_ok": seq.iter().filter(|x| !x.1).count(), "values_whose_call_returned_the_sink_error": seq.iter().filter(|x| x.1).count()}),
+			);
+			return false;
+		}
+		true
+	};
+	for _ in 0..nops {
+		let before = refusals.get();
+		let mut vg = ValueGen::new(rs);
+		vg.budget = *rng.pick(&[5, 30]);
+		let (when, need_all) = if rng.chance(3, 4) {
+			let v = vg.gen(rng);
+			let r = w.serialize(Present::new(rs, &v, &pres));
+			match r {
+				Ok(()) => {
+					seq.push((v, false));
+					("serialize -> ok".to_owned(), false)
+				}
+				Err(e) => {
+					if refusals.get() == before {
+						ctx.violation(format!("conforming-value-rejected {}", err_sig(&e.to_string())), case_seed, json!({"schema": rs.spell(None).compact(), "history": hist, "error": e.to_string()}));
+						std::mem::forget(w);
+						return;
+					}
+					seq.push((v, true));
+					("serialize -> sink error".to_owned(), false)
+				}
+			}
+		} else {
+			match w.finish_block() {
+				Ok(()) => ("finish_block -> ok".to_owned(), true),
+				Err(_) if refusals.get() > before => ("finish_block -> sink error".to_owned(), false),
+				Err(e) => {
+					ctx.violation("finish_block-failed", case_seed, json!({"history": hist, "error": e.to_string()}));
+					std::mem::forget(w);
+					return;
+				}
+			}
+		};
+		hist.push(when.clone());
+		if !check(ctx, &seq, &hist, need_all, &when) {
+			std::mem::forget(w);
+			return;
+		}
+	}
+	let before = refusals.get();
+	match w.into_inner() {
+		Ok(_) => {
+			hist.push("into_inner -> ok".into());
+			if !check(ctx, &seq, &hist, true, "into_inner") {
+				return;
+			}
+		}
+		Err(_) if refusals.get() > before => {
+			hist.push("into_inner -> sink error".into());
+		}
+		Err(e) => {
+			ctx.violation(format!("into_inner-failed {}", err_sig(&e.to_string())), case_seed, json!({"history": hist}));
+			return;
+		}
+	}
+	if refusals.get() > 0 {
+		ctx.count("histories_with_sink_refusals");
+	}
+}
+
 pub fn run_case15(ctx: &mut Ctx, case_seed: u64) {
 	let mut rng = Rng::new(case_seed);
 	let mut cfg = SchemaGenCfg::default();
@@ -138,6 +278,10 @@ pub fn run_case15(ctx: &mut Ctx, case_seed: u64) {
 		Ok(s) => s,
 		Err(_) => return,
 	};
+	if rng.chance(1, 5) {
+		refusal_case(ctx, case_seed, &mut rng, &rs, &schema);
+		return;
+	}
 	let mut wc = pick_write_cfg(&mut rng);
 	wc.approx_block_size = *rng.pick(&[Some(0), Some(1), Some(20), Some(60), Some(200), None, Some(1_000_000)]);
 	// half of the histories go to a sink that takes only part of what it is offered (pipe / socket behaviour)
